@@ -37,7 +37,21 @@ def classify(tp, res_times):
     return "sameday"
 
 
-def gen_pass(rng, thorough, k):
+def gen_pass(rng, thorough, k, long_ok=False):
+    if long_ok and k % 16 == 13:
+        # a LONG pass (2600 lines) that crosses midnight in its first third, has gaps of a few lines all along, and starts at
+        # a line number for which the header time is of no help: consistent recorded times come back as recorded
+        fmt = rng.choice(list(FMT))
+        n0 = rng.choice([800, 4000])
+        nums, cur = [], n0
+        for i in range(2600):
+            nums.append(cur)
+            cur += 1 + (rng.choice([3, 7]) if (i > 950 and i % 211 == 0) else 0)
+        offs = timesgen.ideal_offsets(fmt, nums)
+        year = rng.choice([1996, 2000]) if FMT[fmt]["family"] == "pod" else rng.choice([2003, 2008])
+        c = rng.randint(300, 900)
+        start = ydm_to_ms(year, rng.randint(2, 300), 0) - rng.randint(int(offs[c - 1]) + 1, int(offs[c]))
+        return TimePass(fmt, nums, start), {"kind": "midnight", "gaps": "small", "n": len(nums), "n0": n0}
     if k % 16 == 5:
         # the minimum-fraction limit of the second repair stage met EXACTLY: a pass crossing 1 January whose lines before
         # the new year are exactly 1 % of a line count that is a multiple of 100, the first line after it at 00:00:00.000
@@ -201,7 +215,7 @@ def run(ctx):
     decode_cases(ctx)
     npass = ctx.n(160, 1500)
     for k in range(npass):
-        tp, info = gen_pass(ctx.rng, ctx.thorough, k)
+        tp, info = gen_pass(ctx.rng, ctx.thorough, k, long_ok=(ctx.thorough or getattr(ctx, 'escalated', False)))
         check_pass(ctx, tp, info, drv)
         if k < 4:
             ctx.sample({"fmt": tp.fmt, "info": info, "nums": tp.nums[:6], "start_ms": tp.start_ms})
